@@ -61,6 +61,8 @@ func (c Cat) Count() int {
 type Fault struct {
 	Cats Cat
 	Why  string
+	// Arg: 1-based index of the function argument the fault is about (0: n/a)
+	Arg int
 }
 
 func fault(c Cat, format string, a ...any) *Fault {
